@@ -242,7 +242,22 @@ def run_case(args):
     rep = common.san_report(r)
     if rep:
         return (rep, 'sanitizer/crash: %s on %r: %s' % (common.show(gcmd, 100), lines, r.err[-400:].decode('latin-1')), wit, 0)
-    if r.timed_out or d1 is None or d2 is None or d0 is None:
+    if r.timed_out or (d1 is None and d0 is not None):
+        # slow (or the rest of the script was swallowed as text), or a global that never finishes (one that keeps visiting the lines it inserts asks for text block after text block)?
+        # Second run with the progress pipe: still executing commands, or asleep waiting for yet more input although the
+        # reference is done after a few executions, means the latter.
+        d3 = common.case_dir('e')
+        common.write_files(d3, {'f1': gen.buf_bytes(lines)})
+        r3, state, ncmd = common.run_progress([vi, '-s', '-e', 'f1'], script + b'\n' + common.EX_QUIT, d3, common.base_env(d3), idle=20, total=45)
+        common.rmcase(d3)
+        if state in ('running', 'starved'):
+            return ('global:does-not-finish', '%s on %r: the reference runs the command list %d times and is done; the editor executed %d commands and is still %s' % (
+                common.show(gcmd, 120), lines, M.executions, ncmd, 'executing' if state == 'running' else 'asking for more input'), wit, 0)
+        if txt and d1 is None and not r.timed_out and not common.san_report(r):
+            return ('global:executions', '%s on %r: the reference runs the command list %d times; the editor read more than the %d text blocks provided (the rest of the script, w! d1 included, was taken as text)' % (
+                common.show(gcmd, 120), lines, M.executions, M.executions + 3), wit, 0)
+        return ('inconclusive', None, wit, 0)
+    if d1 is None or d2 is None or d0 is None:
         return ('inconclusive', None, wit, 0)
     want = gen.buf_bytes(M.texts())
     desc = '%s on %r' % (common.show(gcmd, 120), lines)
